@@ -70,9 +70,10 @@ TARGETS = [
     ("lazy_auditory", "gammatone", "klapuri", "gammatone_klapuri", ("se", "se"), ".klapuri", None),
 ]
 NOT_TRANSLATED = [
-    ("gammatone.sampled", "loop `for unused in xrange(eta - 1): ... .diff(mul_after=-z)` over ZFilter objects and a division "
-                          "by a MEASURED gain (abs(freq_response)): needs ZFilter.diff / freq_response, outside the subset; "
-                          "hand model + differential tie + the closed-form theorems"),
+    ("ZFilter.diff (the loop `for unused in xrange(n): ...` of lazy_filters.py that gammatone.sampled calls)",
+     "loop over ZFilter / Poly objects: hand model diffStep / diffNum of ALV/Model/C13.lean (the translated body of "
+     "gammatone.sampled calls it as `diffNum num den (eta - 1)`) + differential tie + the closed-form theorems; the measured gain "
+     "abs(f.freq_response(freq)) likewise is the hand model `normalise` / `gainAt`"),
     ("gammatone.slaney", "list comprehensions over +-1 signs, CascadeFilter of quotients divided by abs(f.freq_response(freq)): "
                          "outside the subset; hand model + differential tie"),
     ("@elementwise of erb (a container / Stream of frequencies)", "decorator of another module: the translator checks that it "
@@ -546,7 +547,7 @@ def translate_one(fname, node, dname, key, lean, kinds, known):
 #                 a float literal -> `ofRat p q` with p / q the shortest decimal that reads back as the literal
 #                 (`1.` -> `ofInt 1`, `.5` -> `half`); `int ** -int` -> `ofInt 1 / ofNat (a ^ e)`;
 #                 `x ** y` -> `pow x y`; `pi` -> `pi`.
-SCALAR_RESERVED = {"pi", "pow", "ofInt", "ofNat", "ofRat", "half", "factorial", "fun", "let", "match", "if", "then", "else",
+SCALAR_RESERVED = {"z", "cos", "sin", "sqrt", "exp", "mk", "normalise", "diffNum", "pi", "pow", "ofInt", "ofNat", "ofRat", "half", "factorial", "fun", "let", "match", "if", "then", "else",
                    "at", "from", "end", "def", "α"}
 
 
@@ -610,6 +611,9 @@ def scalar_expr(node, env, where):
             if x.kind != "nat":
                 raise TranslationError(where + ": factorial of a float")
             return SX("nat", "factorial " + x.p())
+        if (isinstance(node.func, ast.Name) and node.func.id in ("cos", "sin", "sqrt", "exp") and node.func.id not in env
+                and len(node.args) == 1 and not node.keywords):
+            return SX("real", "%s %s" % (node.func.id, _coerce(rec(node.args[0])).p()))
         raise TranslationError(where + ": call outside the subset: " + ast.unparse(node)[:60])
     if isinstance(node, ast.BinOp):
         if isinstance(node.op, ast.Pow):
@@ -771,6 +775,165 @@ def translate_erb_constants(tree):
     return text, [{"function": "gammatone_erb_constants", "lean": "ALV.Gen.C13.gammatone_erb_constants"}]
 
 
+# ------------------------------------------------------------------------------------------------
+# gammatone.sampled: scalars, polynomials in z ** -k (dense coefficient lists), the .diff call, the two gain
+# normalisations, the cascade — in the vocabulary mk / diffNum / normalise of ALV/Model/C13.lean
+# ------------------------------------------------------------------------------------------------
+def _is_zpow(node):
+    """`z ** -k` (k a non-negative int literal) -> k"""
+    if (isinstance(node, ast.BinOp) and isinstance(node.op, ast.Pow) and isinstance(node.left, ast.Name) and node.left.id == "z"
+            and isinstance(node.right, ast.UnaryOp) and isinstance(node.right.op, ast.USub)
+            and isinstance(node.right.operand, ast.Constant) and type(node.right.operand.value) is int
+            and node.right.operand.value >= 0):
+        return node.right.operand.value
+    return None
+
+
+def poly_expr(node, env, where):
+    """sums / differences of scalars and `scalar * z ** -k` terms -> {k: Lean text of the coefficient}; None when the
+    expression has no z term (a plain scalar)"""
+    if isinstance(node, ast.BinOp) and isinstance(node.op, (ast.Add, ast.Sub)):
+        a, b = poly_expr(node.left, env, where), poly_expr(node.right, env, where)
+        if isinstance(node.op, ast.Sub):
+            b = {k: "-(%s)" % v for k, v in b.items()}
+        if set(a) & set(b):
+            raise TranslationError(where + ": two terms of the same delay in " + ast.unparse(node)[:60])
+        a = dict(a)
+        a.update(b)
+        return a
+    if isinstance(node, ast.BinOp) and isinstance(node.op, ast.Mult) and _is_zpow(node.right) is not None:
+        return {_is_zpow(node.right): _coerce(scalar_expr(node.left, env, where)).text}
+    if _is_zpow(node) is not None:
+        return {_is_zpow(node): "ofInt 1"}
+    return {0: _coerce(scalar_expr(node, env, where)).text}
+
+
+def _dense_list(p):
+    return "[" + ", ".join(p.get(k, "ofInt 0") for k in range(max(p) + 1)) + "]"
+
+
+def translate_gammatone_sampled(found):
+    where = "lazy_auditory gammatone.sampled"
+    if ("gammatone", "sampled") not in found:
+        raise TranslationError(where + ": not found")
+    node, names = found[("gammatone", "sampled")]
+    decs = node.decorator_list
+    if len(decs) != 2 or not (isinstance(decs[1], ast.Call) and isinstance(decs[1].func, ast.Name)
+                              and decs[1].func.id == "format_docstring"):
+        raise TranslationError(where + ": decorators must be strategy / format_docstring")
+    a = node.args
+    if a.vararg or a.kwarg or a.kwonlyargs or a.posonlyargs or len(a.args) != 4 or len(a.defaults) != 2:
+        raise TranslationError("%s: parameter list (%s) is not (freq, bandwidth, phase=<int>, eta=<int>)" % (where, ast.unparse(a)))
+    freq, bw, phase, eta = (x.arg for x in a.args)
+    if len({freq, bw, phase, eta}) != 4 or {freq, bw, phase, eta} & SCALAR_RESERVED:
+        raise TranslationError(where + ": parameter names")
+    dph, deta = a.defaults
+    if not (isinstance(dph, ast.Constant) and type(dph.value) is int and dph.value >= 0
+            and isinstance(deta, ast.Constant) and type(deta.value) is int and deta.value >= 1):
+        raise TranslationError(where + ": defaults outside the subset: " + ast.unparse(a))
+    body = _strip_doc(node.body)
+    g = body[0] if body else None
+    if not (isinstance(g, ast.Assert) and g.msg is None and ast.unparse(g.test) == eta + " >= 1"):
+        raise TranslationError(where + ": the body must start with `assert %s >= 1` (the order is a Nat, `%s - 1` truncated)"
+                               % (eta, eta))
+    env = {freq: SX("real", freq, atom=True), bw: SX("real", bw, atom=True), phase: SX("real", phase, atom=True),
+           eta: SX("nat", eta, atom=True)}
+    kinds = {}          # local name -> "poly" | "diffed" | "filt"
+    diffed = {}
+    lines = []
+
+    def fresh(nm):
+        if nm in SCALAR_RESERVED or not nm.isidentifier() or not nm.isascii() or nm in (freq, bw, phase, eta):
+            raise TranslationError(where + ": local name " + nm)
+
+    def polyname(n):
+        if not (isinstance(n, ast.Name) and kinds.get(n.id) == "poly"):
+            raise TranslationError(where + ": expected a polynomial variable, found " + ast.unparse(n)[:40])
+        return n.id
+
+    stmts = body[1:]
+    if not stmts or not isinstance(stmts[-1], ast.Return):
+        raise TranslationError(where + ": the body must end in a return")
+    for st in stmts[:-1]:
+        if isinstance(st, ast.AugAssign):
+            # f /= abs(f.freq_response(x))
+            v = st.value
+            ok = (isinstance(st.op, ast.Div) and isinstance(st.target, ast.Name) and kinds.get(st.target.id) == "filt"
+                  and isinstance(v, ast.Call) and isinstance(v.func, ast.Name) and v.func.id == "abs" and len(v.args) == 1
+                  and not v.keywords and isinstance(v.args[0], ast.Call) and isinstance(v.args[0].func, ast.Attribute)
+                  and v.args[0].func.attr == "freq_response" and isinstance(v.args[0].func.value, ast.Name)
+                  and v.args[0].func.value.id == st.target.id and len(v.args[0].args) == 1 and not v.args[0].keywords)
+            if not ok:
+                raise TranslationError(where + ": statement outside the subset: " + ast.unparse(st)[:70])
+            x = scalar_expr(v.args[0].args[0], env, where)
+            if x.kind != "real":
+                raise TranslationError(where + ": freq_response of an int")
+            lines.append("  let %s := normalise %s %s" % (st.target.id, st.target.id, x.p()))
+            continue
+        if not (isinstance(st, ast.Assign) and len(st.targets) == 1 and isinstance(st.targets[0], ast.Name)):
+            raise TranslationError(where + ": statement outside the subset: " + ast.unparse(st)[:70])
+        nm, v = st.targets[0].id, st.value
+        fresh(nm)
+        for d in (env, kinds):
+            d.pop(nm, None)
+        if (isinstance(v, ast.Call) and isinstance(v.func, ast.Attribute) and v.func.attr == "diff"):
+            # (num / den).diff(n=<nat>, mul_after=-z)
+            q = v.func.value
+            kw = {k.arg: k.value for k in v.keywords}
+            if not (not v.args and set(kw) == {"n", "mul_after"} and ast.unparse(kw["mul_after"]) == "-z"
+                    and isinstance(q, ast.BinOp) and isinstance(q.op, ast.Div)):
+                raise TranslationError(where + ": expected (<num> / <den>).diff(n=..., mul_after=-z)")
+            n = scalar_expr(kw["n"], env, where)
+            if n.kind != "nat":
+                raise TranslationError(where + ": diff(n=<float>)")
+            diffed[nm] = (polyname(q.left), polyname(q.right), n)
+            kinds[nm] = "diffed"
+            continue
+        if isinstance(v, ast.BinOp) and isinstance(v.op, ast.Div) and isinstance(v.right, ast.Name) and kinds.get(v.right.id) == "poly":
+            l = v.left
+            if (isinstance(l, ast.Call) and isinstance(l.func, ast.Name) and l.func.id == "ZFilter" and len(l.args) == 1
+                    and not l.keywords and isinstance(l.args[0], ast.Attribute) and l.args[0].attr == "numpoly"
+                    and isinstance(l.args[0].value, ast.Name) and kinds.get(l.args[0].value.id) == "diffed"):
+                dn, dd, n = diffed[l.args[0].value.id]
+                lines.append("  let %s := mk (diffNum %s %s %s) %s" % (nm, dn, dd, n.p(), v.right.id))
+            else:
+                x = _coerce(scalar_expr(l, env, where))
+                lines.append("  let %s := mk [%s] %s" % (nm, x.text, v.right.id))
+            kinds[nm] = "filt"
+            continue
+        pz = poly_expr(v, env, where)
+        if set(pz) == {0}:
+            x = scalar_expr(v, env, where)
+            lines.append("  let %s := %s" % (nm, x.text))
+            env[nm] = SX(x.kind, nm, atom=True)
+        else:
+            lines.append("  let %s : List α := %s" % (nm, _dense_list(pz)))
+            kinds[nm] = "poly"
+    # return CascadeFilter([f0] + [fn] * (<nat>))
+    r = stmts[-1].value
+    ok = (isinstance(r, ast.Call) and isinstance(r.func, ast.Name) and r.func.id == "CascadeFilter" and len(r.args) == 1
+          and not r.keywords and isinstance(r.args[0], ast.BinOp) and isinstance(r.args[0].op, ast.Add))
+    if ok:
+        l, m = r.args[0].left, r.args[0].right
+        ok = (isinstance(l, ast.List) and len(l.elts) == 1 and isinstance(l.elts[0], ast.Name) and kinds.get(l.elts[0].id) == "filt"
+              and isinstance(m, ast.BinOp) and isinstance(m.op, ast.Mult) and isinstance(m.left, ast.List) and len(m.left.elts) == 1
+              and isinstance(m.left.elts[0], ast.Name) and kinds.get(m.left.elts[0].id) == "filt")
+    if not ok:
+        raise TranslationError(where + ": expected `return CascadeFilter([f0] + [fn] * (<count>))`")
+    cnt = scalar_expr(m.right, env, where)
+    if cnt.kind != "nat":
+        raise TranslationError(where + ": list repeated a float number of times")
+    lines.append("  %s :: List.replicate %s %s" % (l.elts[0].id, cnt.p(), m.left.elts[0].id))
+    text = "%s\ndef gammatone_sampled [ZeroTest α] (%s %s %s : α) (%s : Nat) : List (Coefs α) :=\n%s\n\n" % (
+        _src_doc("gammatone.sampled(%s)" % ast.unparse(a), body), freq, bw, phase, eta, "\n".join(lines))
+    text += ("/-- the defaults of the `def` line: `%s` -/\n"
+             "def gammatone_sampled_call [ZeroTest α] (%s %s : α) (%s : Option α) (%s : Option Nat) : List (Coefs α) :=\n"
+             "  gammatone_sampled %s %s (%s.getD (ofInt %d)) (%s.getD %d)\n\n" % (
+                 ast.unparse(a), freq, bw, phase, eta, freq, bw, phase, dph.value, eta, deta.value))
+    return text, [{"function": "gammatone.sampled", "lean": "ALV.Gen.C13.gammatone_sampled / gammatone_sampled_call",
+                   "names": names}]
+
+
 SCALAR_HEAD = """
 /-! ### scalar functions of lazy_auditory.py, in the vocabulary of ALV/Model/C13.lean and C13Call.lean
 (generic over `[TrigField α]`; `Except.error ()` = the `ValueError`; `LtTest.lt` = Python's `<` on numbers) -/
@@ -784,7 +947,8 @@ open ALV.TrigField
 def translate_scalar(found, tree):
     t1, i1 = translate_erb(found, tree)
     t2, i2 = translate_erb_constants(tree)
-    return SCALAR_HEAD + t1 + t2 + "end scalar\n", i1 + i2
+    t3, i3 = translate_gammatone_sampled(found)
+    return SCALAR_HEAD + t1 + t2 + t3 + "end scalar\n", i1 + i2 + i3
 
 
 HEADER = """/-
@@ -926,6 +1090,15 @@ EDITS = [
     ("gammatone_erb_constants: tnt = 2 * n - 2 -> 2 * n - 1", "lazy_auditory", "  tnt = 2 * n - 2\n", "  tnt = 2 * n - 1\n", 0),
     ("gammatone_erb_constants: 2 ** -tnt -> 2 ** tnt", "lazy_auditory", "2 ** -tnt", "2 ** tnt", 0),
     ("gammatone_erb_constants: (1. / n) -> (1. / (n - 1))", "lazy_auditory", "2 ** (1. / n)", "2 ** (1. / (n - 1))", 0),
+    ("gammatone.sampled: cos(freq - phase) -> cos(freq + phase)", "lazy_auditory", "A * cos(freq - phase) * z ** -1",
+     "A * cos(freq + phase) * z ** -1", 0),
+    ("gammatone.sampled: diff(n=eta-1) -> diff(n=eta)", "lazy_auditory", ".diff(n=eta-1, mul_after=-z)", ".diff(n=eta, mul_after=-z)", 0),
+    ("gammatone.sampled: f0 not normalised", "lazy_auditory", "  f0 /= abs(f0.freq_response(freq)) # Max gain == 1.0 (0 dB)\n", "", 0),
+    ("gammatone.sampled: [fn] * (eta - 1) -> [fn] * eta", "lazy_auditory", "[f0] + [fn] * (eta - 1)", "[f0] + [fn] * eta", 0),
+    ("gammatone.sampled: default eta=4 -> eta=3", "lazy_auditory", "phase=0, eta=4", "phase=0, eta=3", 0),
+    ("gammatone.sampled: A ** 2 * z ** -2 -> A * z ** -2", "lazy_auditory",
+     "  denominator = 1 - 2 * A * cos(freq) * z ** -1 + A ** 2 * z ** -2\n  filt",
+     "  denominator = 1 - 2 * A * cos(freq) * z ** -1 + A * z ** -2\n  filt", 0),
 ]
 # edits that change no meaning: the Gen DEFINITIONS (comments aside) must stay the same
 HARMLESS = [
